@@ -413,7 +413,11 @@ SPEC = dict(
         dict(name='sender_task_promise_ctor', harness='h_stp_ctor', enforce='sender_task_promise_ctor'),
         dict(name='sender_task_awaiter_await_suspend', harness='h_stp_await_suspend', enforce='sender_task_awaiter_await_suspend',
              replace=['deactivateAsyncStackFrame']),
-        dict(name='sender_task_unhandled_done', harness='h_stp_done', enforce='sender_task_promise_unhandled_done',
+        dict(name='sender_task_unhandled_done_r0', harness='h_stp_done_r0', enforce='sender_task_promise_unhandled_done',
+             replace=['popAsyncStackFrameFromCaller', 'deactivateAsyncStackFrame']),
+        dict(name='sender_task_unhandled_done_r1', harness='h_stp_done_r1', enforce='sender_task_promise_unhandled_done',
+             replace=['popAsyncStackFrameFromCaller', 'deactivateAsyncStackFrame']),
+        dict(name='sender_task_unhandled_done_off', harness='h_stp_done_off', enforce='sender_task_promise_unhandled_done',
              replace=['popAsyncStackFrameFromCaller', 'deactivateAsyncStackFrame']),
         dict(name='sender_task_start', harness='h_st_start', enforce='sender_task_start', replace=SR_REPLACE),
         dict(name='cleanup_final_suspend', harness='h_cp_final_suspend', enforce='cleanup_final_await_suspend_impl', replace=['popAsyncStackFrameCallee']),
@@ -423,7 +427,10 @@ SPEC = dict(
     ],
     assumptions=[
         'NOT REACHED: the configuration-differential half of C20 (same observable behaviour under C++17/20 x NDEBUG/debug x continuation visitation on/off): needs several builds to be run and compared, a different technique',
-        'call sites that are plain function bodies ARE reached, with the primitives represented by their contracts: await_transform.hpp _awaitable_wrapper::await_suspend_impl (both overloads), _awaitable::await_suspend, the resumer coroutine\'s awaiter::await_suspend; inject_async_stack.hpp _rcvr_wrapper::set_value/set_error/set_done, _op_wrapper::start (with _root_and_frame / _root_and_frame_ref); sync_wait.hpp initial_stack_root and the scope in _impl that owns it.  NOT REACHED: task.hpp / connect_awaitable.hpp / at_coroutine_exit.hpp / stop_if_requested.hpp (coroutine bodies), _rec::complete / _rec::set_done in await_transform.hpp, _rcvr_wrapper::set_next (conditionally noexcept: unwinding through the RAII object)',
+        'call sites that are plain function bodies ARE reached, with the primitives represented by their contracts: await_transform.hpp _awaitable_wrapper::await_suspend_impl (both overloads), _awaitable::await_suspend, the resumer coroutine\'s awaiter::await_suspend, _awaitable_base::_rec::complete / set_value / set_error (both overloads) / set_done; inject_async_stack.hpp _rcvr_wrapper::set_value/set_error/set_done/set_next (set_next with a throwing wrapped set_next: the exception leaves through the RAII object, checked on both paths), _op_wrapper::start (with _root_and_frame / _root_and_frame_ref); sync_wait.hpp initial_stack_root and the scope in _impl that owns it; connect_awaitable.hpp _sender_task::promise_type constructor, promise_type::awaiter::await_suspend, the lambda behind doneCoro_ (unhandled_done handler), _sender_task::type::start; at_coroutine_exit.hpp _cleanup_promise_base::final_awaitable::await_suspend_impl, _cleanup_promise::await_transform, _cleanup_task::awaiter::await_suspend_impl_.  NOT REACHED (coroutine bodies, contain co_await / co_yield): connect_awaitable.hpp _await_cpo::_fn::connect_impl, at_coroutine_exit.hpp _at_coroutine_exit::_fn::at_coroutine_exit; task.hpp / stop_if_requested.hpp (not targeted); members that call no async-stack primitive (promise_type::unhandled_done() = return doneCoro_.handle(), the doneCoro_ lambda of _cleanup_promise, final_awaitable::await_suspend wrappers around await_suspend_impl, _cleanup_promise_base::next) are not extracted; the noexcept-specification of set_next (is_nothrow_next_receiver_v<Receiver, T...>) is not checked',
+        '_rec: continuation_.resume() / resume_done() is a stub (EV_resume_continuation): the awaiting coroutine runs on this thread and uses the async stack in a balanced way -- by the time it returns it has deactivated its frame (assumption; _rec::complete has no ensureFrameDeactivated, the ScopedAsyncStackRoot destructor precondition topFrame == nullptr is then an obligation); the frame may have been re-activated on another root, the coroutine and with it the awaitable (result slot, operation state, this receiver) may be gone: dead-object snapshots of F0, REC and RESULT.  For resume_done() the stub assumes what the waiting coroutine\'s unhandled_done handler does (pop the dummy frame, deactivate the own frame): proved for connect_awaitable.hpp\'s handler (units sender_task_unhandled_done_*), tied together by lemma_done_handoff over its contract; task.hpp\'s handler is not reached.  Value\'s constructor in set_value may throw (nothing delivered)',
+        'sender_task_unhandled_done is verified per configuration (current root = R0 / R1 fixed, WithAsyncStackSupport fixed; three units): with a symbolic choice of the root the path through the replaced popAsyncStackFrameFromCaller contract was infeasible (vacuity canary), cause not found; lemma_operation_balanced reaches that contract only on one of two nondeterministic branches',
+        'connect_awaitable.hpp / at_coroutine_exit.hpp stubs: the completion function handed to co_yield and set_done on the receiver may destroy the coroutine (dead-object snapshot of F0); _sender_task::start: a coroutine that is still alive when resume() returns has deactivated its frame (every await / yield path does: units sender_awaitable_await_suspend, await_suspend_impl_*, sender_task_awaiter_await_suspend), a destroyed one may still be recorded as top frame; h.destroy() of the finished cleanup coroutine kills its promise and frame_ (snapshot of CP and F1); call-site preconditions of at_coroutine_exit.hpp (caller obligations of coroutine code that is not reached): when await_transform pushes, the parent frame is the active frame and the cleanup frame is detached; at final_suspend the cleanup frame is the active frame with the parent as its detached caller; parentFrame_ is null until await_suspend_impl_ has run (member initialiser parentFrame_{}, not extracted)',
         'call-site stubs: the wrapped awaiter\'s await_suspend, the downstream receiver\'s completion, the wrapped operation\'s start and sync_wait\'s connect/start/run use the async stack in a balanced way on the current root (they return with the frame that was active still active) -- assumption; they may resume the coroutine elsewhere (its frame re-activated on another root) or destroy operation / promise / awaiter: dead-object snapshot, writes afterwards are violations, reads of a dead object are not detected',
         'local RAII objects (_root_and_frame, _root_and_frame_ref, initial_stack_root, the ScopedAsyncStackRoot in the resumer awaiter) are laid out on the window objects (frame_ -> F1 resp. F0, root_ -> SR); member construction / destruction order is written out in the template (VF_*_CTOR / VF_*_DTOR), the constructor / destructor BODIES are extracted',
         '_op_wrapper::start with an operation that is still pending when start() returns: the frame stays attached (known finding C20-op-wrapper-frame-left-attached, unit ScopedAsyncStackRoot_ensureFrameDeactivated_live_frame); unit op_wrapper_start proves root restoration, the activation order and that a possibly-dead operation is not written',
@@ -443,5 +450,6 @@ SPEC = dict(
            'namespace qualifiers unifex:: / detail::', 'coroutine_handle::resume() -> event stub EV_resume',
            'local ScopedAsyncStackRoot object: constructor / destructor made explicit (VF_SCOPED_CTOR / VF_SCOPED_DTOR at scope exit)',
            'call sites: coroutine handles -> int ids; resume_with_stack_root(h).handle(), awaiter_.await_suspend(resumer), std::exchange(coro_, {}).destroy(), h.resume(), unifex::start(op_), unifex::set_value/set_error/set_done(receiver()), get_async_stack_frame(...), connect/start/ctx.run() in sync_wait -> event stubs; a reference bound to *p at a call of activate/deactivate -> p (callable pre rule); constructor arguments of local RAII objects passed through template variables; UNIFEX_TRY / UNIFEX_CATCH -> goto vf_catch; if constexpr (WithAsyncStackSupport) -> both branches',
+           'second batch of call sites: continuation_.resume() / resume_done(), activate_union_member(...), unifex::set_next(receiver(), ...) (may throw: modelled as an early exit, the RAII exit rule then runs the destructor = unwinding), std::forward<Func>(func_)(), unifex::set_done(std::move(receiver_)), coro_.resume(), h.promise().next(), h.destroy(), unifex::await_transform(*this, ...), exchange_continuation / get_scheduler / get_async_stack_frame(parent) -> event stubs; `return f();` with f returning void -> `{ f(); return; }` (spec-level pre rule); local AsyncStackFrame of _rec::set_done laid out on F1 (VF_DUMMY_CTOR / VF_DUMMY_DTOR), promise members reached through a coroutine handle (h.promise().frame_, continuation_.promise().x) -> the window objects F0 / F1 / CP; std::make_exception_ptr(std::system_error{code}) dropped (set_error(error_code) forwards to set_error(exception_ptr))',
            'getDetachedRootAsyncStackFrame / makeDetachedRootFrame / compiler_must_not_elide / pthread key set-up: not extracted (no link field is touched)'],
 )
